@@ -328,7 +328,7 @@ Proof.
 Qed.
 Lemma run_evs_nsinks evs : forall lens st id, sk_nsinks (run_evs lens st evs id) = sk_nsinks (st id).
 Proof.
-  induction evs as [|[i|i|h] r IH]; intros lens st id; cbn [run_evs]; [reflexivity| | |apply IH];
+  induction evs as [|[i|i|h|h] r IH]; intros lens st id; cbn [run_evs]; [reflexivity| | |apply IH|apply IH];
     rewrite IH; unfold sk_upd, sk_write, sk_sync; destruct (Nat.eqb id i) eqn:E; try reflexivity;
     apply Nat.eqb_eq in E; subst; apply nsinks_run.
 Qed.
@@ -543,27 +543,192 @@ Proof.
   rewrite (must_end_level lg l _ E F). reflexivity.
 Qed.
 
-(* what the entry hooks report: the reads of ce.Entry at the hooked cores *)
-Lemma hook_reads_repeat e evs : hook_reads evs (repeat e (ncores evs)) = repeat e (length (ev_hooks_of evs)).
+(* ---------------- composite cores written through their own Write method ---------------- *)
+Lemma writes_of_app a b : writes_of (a ++ b) = writes_of a ++ writes_of b.
+Proof. unfold writes_of. apply flat_map_app. Qed.
+Lemma ev_hooks_of_app a b : ev_hooks_of (a ++ b) = ev_hooks_of a ++ ev_hooks_of b.
+Proof. unfold ev_hooks_of. apply flat_map_app. Qed.
+Lemma ev_fhooks_of_app a b : ev_fhooks_of (a ++ b) = ev_fhooks_of a ++ ev_fhooks_of b.
+Proof. unfold ev_fhooks_of. apply flat_map_app. Qed.
+
+Lemma leaf_write_proj fails hi i :
+  writes_of (fst (leaf_write fails hi i)) = [i] /\ ev_hooks_of (fst (leaf_write fails hi i)) = [] /\
+  ev_fhooks_of (fst (leaf_write fails hi i)) = [] /\ snd (leaf_write fails hi i) = fails i.
+Proof. unfold leaf_write. destruct (fails i), hi; repeat split; reflexivity. Qed.
+
+Lemma bool_shuffle a b c d : (a || b) || (c || d) = (a || c) || (b || d).
+Proof. destruct a, b, c, d; reflexivity. Qed.
+
+(* multiCore.Write hands the entry to EVERY core of the tee, whatever the others return; the filter, the sampler, the
+   lazy core and the forwarding wrapper pass it on; the error is reported exactly when some core failed *)
+Theorem composite_write_thm fails hfails hi c :
+  writes_of (fst (x_write fails hfails hi c)) = x_reach c /\
+  ev_fhooks_of (fst (x_write fails hfails hi c)) = x_hooks c /\
+  ev_hooks_of (fst (x_write fails hfails hi c)) = [] /\
+  snd (x_write fails hfails hi c) = existsb fails (x_reach c) || existsb hfails (x_hooks c).
 Proof.
-  induction evs as [|[i|i|h] r IH]; [reflexivity| | |]; unfold ev_hooks_of in *; cbn [ncores hook_reads repeat tl hd flat_map app length].
-  - exact IH.
-  - exact IH.
-  - rewrite IH. reflexivity.
+  induction c as [i| |cs IH|c h IH|c IH|c IH|c IH|c IH] using xcore_ind'; try exact IH.
+  - cbn [x_write x_reach x_hooks existsb]. destruct (leaf_write_proj fails hi i) as [H1 [H2 [H3 H4]]].
+    rewrite H1, H2, H3, H4, !orb_false_r. repeat split; reflexivity.
+  - repeat split; reflexivity.
+  - cbn [x_write x_reach x_hooks]. induction IH as [|c r Hc _ IHr]; [repeat split; reflexivity|].
+    destruct Hc as [H1 [H2 [H3 H4]]]. destruct IHr as [R1 [R2 [R3 R4]]]. cbn [fst snd].
+    rewrite writes_of_app, ev_fhooks_of_app, ev_hooks_of_app, H1, H2, H3, H4, R1, R2, R3, R4, !existsb_app.
+    repeat split; try reflexivity. apply bool_shuffle.
+  - cbn [x_write x_reach x_hooks existsb fst snd]. rewrite orb_false_r. repeat split; reflexivity.
 Qed.
+
+(* the shape of the events of a call: the Write of a healthy IO core above error level with the Sync of its sink
+   right behind it, a failed Write without, hooks *)
+Inductive okl (fails : nat -> bool) (hi : bool) : list ev -> Prop :=
+| okl_nil : okl fails hi []
+| okl_ws i r : hi = true -> fails i = false -> okl fails hi r -> okl fails hi (EWrite i :: ESync i :: r)
+| okl_w i r : hi && negb (fails i) = false -> okl fails hi r -> okl fails hi (EWrite i :: r)
+| okl_h h r : okl fails hi r -> okl fails hi (EHook h :: r)
+| okl_fh h r : okl fails hi r -> okl fails hi (EFHook h :: r).
+
+Lemma okl_app fails hi a b : okl fails hi a -> okl fails hi b -> okl fails hi (a ++ b).
+Proof. induction 1; intros Hb; cbn [app]; [exact Hb|constructor; auto..]. Qed.
+Lemma okl_sync_ok fails hi evs : okl fails hi evs -> sync_ok_x fails hi evs = true.
+Proof.
+  induction 1 as [|i r Hh Hf _ IH|i r Hn _ IH|h r _ IH|h r _ IH]; cbn [sync_ok_x]; try exact IH; [reflexivity| |].
+  - rewrite Hh in *. rewrite Hf. cbn [negb andb]. rewrite Nat.eqb_refl. exact IH.
+  - rewrite Hn. exact IH.
+Qed.
+Lemma leaf_write_okl fails hi i : okl fails hi (fst (leaf_write fails hi i)).
+Proof.
+  unfold leaf_write. destruct (fails i) eqn:F; cbn [fst].
+  - apply okl_w; [rewrite F; apply andb_false_r|constructor].
+  - destruct hi; [apply okl_ws; [reflexivity|exact F|constructor]|apply okl_w; [reflexivity|constructor]].
+Qed.
+Lemma x_write_okl fails hfails hi c : okl fails hi (fst (x_write fails hfails hi c)).
+Proof.
+  induction c as [i| |cs IH|c h IH|c IH|c IH|c IH|c IH] using xcore_ind'; try exact IH.
+  - apply leaf_write_okl.
+  - constructor.
+  - cbn [x_write]. induction IH as [|c r Hc _ IHr]; [constructor|]. cbn [fst]. apply okl_app; [exact Hc|exact IHr].
+  - cbn [x_write fst]. repeat constructor.
+Qed.
+Lemma core_write_okl fx hi x : okl (fe_fails fx) hi (fst (core_write fx hi x)).
+Proof.
+  destruct x as [i|h]; cbn [core_write].
+  - destruct (fe_fw fx i); [apply x_write_okl|apply leaf_write_okl].
+  - cbn [fst]. repeat constructor.
+Qed.
+Lemma ce_write_okl fx hi ws : okl (fe_fails fx) hi (fst (ce_write fx hi ws)).
+Proof. induction ws as [|x r IH]; [constructor|]. cbn [ce_write fst]. apply okl_app; [apply core_write_okl|exact IH]. Qed.
+
+(* what CheckedEntry.Write hands to whom: every leaf on it, every leaf the Write methods beneath a wrapper on it
+   reach, the hook sets on it and beneath the wrappers *)
+Lemma ce_write_proj fx hi ws :
+  writes_of (fst (ce_write fx hi ws)) = flat_map (reach_of fx) (leaves_of ws) /\
+  ev_hooks_of (fst (ce_write fx hi ws)) = hooks_of ws /\
+  ev_fhooks_of (fst (ce_write fx hi ws)) = flat_map (fhooks_of fx) (leaves_of ws).
+Proof.
+  induction ws as [|[i|h] r [I1 [I2 I3]]]; [repeat split; reflexivity| |]; cbn [ce_write fst].
+  - rewrite writes_of_app, ev_hooks_of_app, ev_fhooks_of_app, I1, I2, I3.
+    change (leaves_of (WLeaf i :: r)) with (i :: leaves_of r). change (hooks_of (WLeaf i :: r)) with (hooks_of r).
+    cbn [flat_map core_write].
+    assert (Hr : writes_of (fst (match fe_fw fx i with Some c => x_write (fe_fails fx) (fe_hfails fx) hi c | None => leaf_write (fe_fails fx) hi i end)) = reach_of fx i /\
+                 ev_hooks_of (fst (match fe_fw fx i with Some c => x_write (fe_fails fx) (fe_hfails fx) hi c | None => leaf_write (fe_fails fx) hi i end)) = [] /\
+                 ev_fhooks_of (fst (match fe_fw fx i with Some c => x_write (fe_fails fx) (fe_hfails fx) hi c | None => leaf_write (fe_fails fx) hi i end)) = fhooks_of fx i).
+    { unfold reach_of, fhooks_of. destruct (fe_fw fx i) as [c|].
+      - destruct (composite_write_thm (fe_fails fx) (fe_hfails fx) hi c) as [H1 [H2 [H3 _]]]. auto.
+      - destruct (leaf_write_proj (fe_fails fx) hi i) as [H1 [H2 [H3 _]]]. auto. }
+    destruct Hr as [H1 [H2 H3]]. rewrite H1, H2, H3. repeat split; reflexivity.
+  - rewrite writes_of_app, ev_hooks_of_app, ev_fhooks_of_app, I1, I2, I3. repeat split; reflexivity.
+Qed.
+
+(* a healthy core that was written above error level was synced at once *)
+Lemma okl_in_split fails evs id :
+  okl fails true evs -> fails id = false -> In id (writes_of evs) ->
+  exists a b, evs = a ++ EWrite id :: ESync id :: b.
+Proof.
+  intros Hok Hf. induction Hok as [|i r _ Hfi _ IH|i r Hn _ IH|h r _ IH|h r _ IH]; intros Hin.
+  - destruct Hin.
+  - change (writes_of (EWrite i :: ESync i :: r)) with (i :: writes_of r) in Hin. destruct Hin as [->|Hin].
+    + exists [], r. reflexivity.
+    + destruct (IH Hin) as [a [b ->]]. exists (EWrite i :: ESync i :: a), b. reflexivity.
+  - change (writes_of (EWrite i :: r)) with (i :: writes_of r) in Hin. destruct Hin as [->|Hin].
+    + rewrite Hf in Hn. discriminate Hn.
+    + destruct (IH Hin) as [a [b ->]]. exists (EWrite i :: a), b. reflexivity.
+  - destruct (IH Hin) as [a [b ->]]. exists (EHook h :: a), b. reflexivity.
+  - destruct (IH Hin) as [a [b ->]]. exists (EFHook h :: a), b. reflexivity.
+Qed.
+
+(* ... and every sink below it, whatever the stack, ends with nothing pending - whichever other cores failed *)
+Lemma okl_settled fails evs : okl fails true evs -> forall lens st id,
+  fails id = false -> settled (st id) \/ In id (writes_of evs) -> settled (run_evs_x fails lens st evs id).
+Proof.
+  induction 1 as [|i r _ Hfi _ IH|i r Hn _ IH|h r _ IH|h r _ IH]; intros lens st id Hf H.
+  - cbn. destruct H as [H|[]]. exact H.
+  - cbn [run_evs_x]. rewrite Hfi. apply IH; [exact Hf|].
+    change (writes_of (EWrite i :: ESync i :: r)) with (i :: writes_of r) in H.
+    unfold sk_upd at 1. destruct (Nat.eqb id i) eqn:E.
+    + left. apply sync_reaches_every_sink.
+    + unfold sk_upd. rewrite E. destruct H as [H|[H|H]]; [left; exact H| |right; exact H].
+      subst i. rewrite Nat.eqb_refl in E. discriminate E.
+  - cbn [andb] in Hn. apply negb_false_iff in Hn. cbn [run_evs_x]. rewrite Hn. apply IH; [exact Hf|].
+    change (writes_of (EWrite i :: r)) with (i :: writes_of r) in H.
+    destruct H as [H|[H|H]]; [left; exact H| |right; exact H]. subst i. rewrite Hf in Hn. discriminate Hn.
+  - cbn [run_evs_x]. apply IH; assumption.
+  - cbn [run_evs_x]. apply IH; assumption.
+Qed.
+Lemma run_evs_x_nsinks fails evs : forall lens st id, sk_nsinks (run_evs_x fails lens st evs id) = sk_nsinks (st id).
+Proof.
+  induction evs as [|[i|i|h|h] r IH]; intros lens st id; cbn [run_evs_x]; [reflexivity| | |apply IH|apply IH].
+  - destruct (fails i); [apply IH|]. rewrite IH. unfold sk_upd, sk_write. destruct (Nat.eqb id i) eqn:E; [|reflexivity].
+    apply Nat.eqb_eq in E. subst. apply nsinks_run.
+  - rewrite IH. unfold sk_upd, sk_sync. destruct (Nat.eqb id i) eqn:E; [|reflexivity].
+    apply Nat.eqb_eq in E. subst. apply nsinks_run.
+Qed.
+
+(* the abstract buffered sink (a file behind a BufferedWriteSyncer): a healthy one holds every line, a failing one none *)
+Lemma okl_flushed_hi fails evs : okl fails true evs -> forall id done,
+  flushed_lines_x fails id evs 0 done = (done + (if fails id then 0 else count_writes id (writes_of evs)))%nat.
+Proof.
+  induction 1 as [|i r _ Hfi _ IH|i r Hn _ IH|h r _ IH|h r _ IH]; intros id done.
+  - cbn. destruct (fails id); lia.
+  - change (writes_of (EWrite i :: ESync i :: r)) with (i :: writes_of r). unfold count_writes. cbn [filter flushed_lines_x].
+    rewrite Hfi, (Nat.eqb_sym id i). cbn [negb]. rewrite andb_true_r. destruct (Nat.eqb i id) eqn:E.
+    + rewrite IH. apply Nat.eqb_eq in E. subst i. rewrite Hfi. unfold count_writes. cbn [length]. lia.
+    + rewrite IH. reflexivity.
+  - cbn [andb] in Hn. apply negb_false_iff in Hn.
+    change (writes_of (EWrite i :: r)) with (i :: writes_of r). unfold count_writes. cbn [filter flushed_lines_x].
+    rewrite Hn. cbn [negb]. rewrite andb_false_r, IH, (Nat.eqb_sym id i). destruct (Nat.eqb i id) eqn:E; [|reflexivity].
+    apply Nat.eqb_eq in E. subst i. rewrite Hn. reflexivity.
+  - cbn [flushed_lines_x]. apply IH.
+  - cbn [flushed_lines_x]. apply IH.
+Qed.
+Lemma okl_flushed_lo fails evs : okl fails false evs -> forall id p done, flushed_lines_x fails id evs p done = done.
+Proof.
+  induction 1 as [|i r Hh _ _ _|i r _ _ IH|h r _ IH|h r _ IH]; intros id p done; [reflexivity|discriminate Hh| | |];
+    cbn [flushed_lines_x]; try apply IH. destruct (Nat.eqb i id && negb (fails i)); apply IH.
+Qed.
+
+(* what the entry hooks report: the reads of ce.Entry at the hooked cores on the entry and beneath the wrappers *)
 Lemma map_repeat' {A B} (f : A -> B) x n : map f (repeat x n) = repeat (f x) n.
 Proof. induction n as [|n IH]; [reflexivity|]. cbn [repeat map]. rewrite IH. reflexivity. Qed.
-Lemma spec_seen_model lg name cl evs :
-  let ent := {| en_level := c_level cl; en_msg := c_msg cl; en_name := name |} in
-  spec_seen lg name cl evs
-    (SL (map enc_entry (hook_reads evs (repeat ent (ncores evs)) ++ (if hook_looks (must_end lg (c_level cl)) then [ent] else [])))) = true.
+Lemma reads_x_repeat fx e ws :
+  reads_x fx ws (repeat e (length ws)) = repeat e (length (hooks_of ws) + length (flat_map (fhooks_of fx) (leaves_of ws))).
 Proof.
-  intros ent. unfold spec_seen. rewrite hook_reads_repeat, map_app, map_repeat'.
+  induction ws as [|[i|h] r IH]; [reflexivity| |]; cbn [length repeat reads_x hd tl]; rewrite IH.
+  - change (leaves_of (WLeaf i :: r)) with (i :: leaves_of r). change (hooks_of (WLeaf i :: r)) with (hooks_of r).
+    cbn [flat_map]. rewrite app_length, <- repeat_app. f_equal. lia.
+  - change (leaves_of (WHook h :: r)) with (leaves_of r). change (hooks_of (WHook h :: r)) with (h :: hooks_of r). reflexivity.
+Qed.
+Lemma spec_seen_model lg name cl evs n :
+  let ent := {| en_level := c_level cl; en_msg := c_msg cl; en_name := name |} in
+  n = (length (ev_hooks_of evs) + length (ev_fhooks_of evs))%nat ->
+  spec_seen lg name cl evs
+    (SL (map enc_entry (repeat ent n ++ (if hook_looks (must_end lg (c_level cl)) then [ent] else [])))) = true.
+Proof.
+  intros ent ->. unfold spec_seen. rewrite map_app, map_repeat'.
   change (enc_entry ent) with (SL [SZ (c_level cl); SB (c_msg cl); SB name]).
-  set (x := SL [SZ (c_level cl); SB (c_msg cl); SB name]). set (n := length (ev_hooks_of evs)).
-  assert (H1 : repeat x n ++ [x] = repeat x (n + 1)) by (rewrite repeat_app; reflexivity).
-  assert (H0 : repeat x n ++ [] = repeat x (n + 0)) by (rewrite app_nil_r, Nat.add_0_r; reflexivity).
-  destruct (must_end lg (c_level cl)) as [[| | |k|k m]|]; cbn [hook_looks map]; change (enc_entry ent) with x; rewrite ?H1, ?H0; apply sx_eqb_refl.
+  set (x := SL [SZ (c_level cl); SB (c_msg cl); SB name]). set (k := (length (ev_hooks_of evs) + length (ev_fhooks_of evs))%nat).
+  assert (H1 : repeat x k ++ [x] = repeat x (k + 1)) by (rewrite repeat_app; reflexivity).
+  assert (H0 : repeat x k ++ [] = repeat x (k + 0)) by (rewrite app_nil_r, Nat.add_0_r; reflexivity).
+  destruct (must_end lg (c_level cl)) as [[| | |j|j m]|]; cbn [hook_looks map]; change (enc_entry ent) with x; rewrite ?H1, ?H0; apply sx_eqb_refl.
 Qed.
 
 Lemma forallb_combine_map {A B} (g : A * B -> bool) (f : A -> B) l :
@@ -575,17 +740,18 @@ Proof. induction 1 as [|x r Hx _ IH]; [reflexivity|]. subst x. cbn [map forallb 
 (* the stacks keep their shape from call to call *)
 Definition st_inv (st0 st : sinks) : Prop := forall id, sk_nsinks (st id) = sk_nsinks (st0 id).
 
-Lemma spec_pend_model dec w lg ids stks l st :
+Lemma spec_pend_model fx dec w lg ids stks l st :
   st_inv (sk_init ids stks) st ->
-  ((ErrorL <? l) = true -> forall id, In id (delivered_s dec w (lcore lg) 0 l) -> settled (st id)) ->
-  spec_pend dec w lg ids stks l (enc_pend ids st) = true.
+  ((ErrorL <? l) = true -> forall id, fe_fails fx id = false -> In id (must_reach fx dec w lg l) -> settled (st id)) ->
+  spec_pend fx dec w lg ids stks l (enc_pend ids st) = true.
 Proof.
   intros Hinv Hs. unfold spec_pend, enc_pend. cbn [sx_l]. rewrite map_length, Nat.eqb_refl. cbn [andb].
   rewrite forallb_combine_map. apply forallb_forall. intros id _. cbn [sx_l].
   rewrite map_length, pending_length, (Hinv id), Nat.eqb_refl. cbn [andb].
-  destruct ((ErrorL <? l) && existsb (Nat.eqb id) (delivered_s dec w (lcore lg) 0 l)) eqn:E; [|reflexivity].
-  apply andb_true_iff in E. destruct E as [Hhi He]. apply existsb_exists in He. destruct He as [x [Hin Hx]].
-  apply Nat.eqb_eq in Hx. subst x. apply forallb_is_zero. exact (Hs Hhi id Hin).
+  destruct ((ErrorL <? l) && negb (fe_fails fx id) && existsb (Nat.eqb id) (must_reach fx dec w lg l)) eqn:E; [|reflexivity].
+  apply andb_true_iff in E. destruct E as [E He]. apply andb_true_iff in E. destruct E as [Hhi Hf].
+  apply negb_true_iff in Hf. apply existsb_exists in He. destruct He as [x [Hin Hx]].
+  apply Nat.eqb_eq in Hx. subst x. apply forallb_is_zero. exact (Hs Hhi id Hf Hin).
 Qed.
 
 (* a call of a well-formed case, whatever the samplers decide *)
@@ -600,6 +766,11 @@ Proof.
   - assert (~ terminal lg (c_level cl)) as Hn by (rewrite <- terminal_b_spec, T; discriminate).
     rewrite (after_hook_not_terminal lg _ Hn). destruct (reaches_check w (lcore lg) (fam_of (c_method cl)) (c_level cl)); reflexivity.
 Qed.
+Lemma log_call_x_wf fx dec w lg cl :
+  wf_call cl = true ->
+  log_call_x fx dec w lg (fam_of (c_method cl)) (c_level cl) =
+  (fst (ce_write fx (ErrorL <? c_level cl) (call_writers_s dec w (lcore lg) (fam_of (c_method cl)) (c_level cl))), must_end lg (c_level cl)).
+Proof. intros Hwf. unfold log_call_x. change (fun _ : nat => true) with all_io. rewrite (log_call_s_wf dec w lg cl Hwf). reflexivity. Qed.
 
 (* the decisions the oracle reads back from the model's report are the ones that mattered: the call asked only the
    samplers it reports, and those only at a sampled level *)
@@ -621,61 +792,204 @@ Proof.
   rewrite <- Hws in HL, HH. split; [exact HL|exact HH].
 Qed.
 
-Lemma spec_model_call nz dec w lg ids stks st cl :
+Lemma spec_model_call fx nz dec w lg ids stks st cl :
   wf_call cl = true -> st_inv (sk_init ids stks) st ->
-  spec_call (nz_name nz) w lg ids stks cl (fst (model_call nz dec w lg ids st cl)) = true /\
-  st_inv (sk_init ids stks) (snd (model_call nz dec w lg ids st cl)).
+  spec_call fx (nz_name nz) w lg ids stks cl (fst (model_call fx nz dec w lg ids st cl)) = true /\
+  st_inv (sk_init ids stks) (snd (model_call fx nz dec w lg ids st cl)).
 Proof.
-  intros Hwf Hinv. unfold spec_call, model_call, front_call_s. cbv zeta. rewrite (log_call_s_wf dec w lg cl Hwf). cbn [fst snd].
+  intros Hwf Hinv. unfold spec_call, model_call. cbv zeta. rewrite (log_call_x_wf fx dec w lg cl Hwf). cbn [fst snd].
   rewrite wire_seen_logged. cbn [fst snd].
-  destruct (reported_front_ends dec w (lcore lg) (fam_of (c_method cl)) (c_level cl)) as [HL HH]. cbv zeta in HL, HH.
+  set (ws := call_writers_s dec w (lcore lg) (fam_of (c_method cl)) (c_level cl)).
+  destruct (reported_front_ends dec w (lcore lg) (fam_of (c_method cl)) (c_level cl)) as [HL HH]. cbv zeta in HL, HH. fold ws in HL, HH.
+  destruct (ce_write_proj fx (ErrorL <? c_level cl) ws) as [P1 [P2 P3]].
+  pose proof (ce_write_okl fx (ErrorL <? c_level cl) ws) as Hok.
   split.
-  - unfold sx_nth. cbn [sx_l nth]. rewrite dec_enc_evs.
-    rewrite writes_of_write_events, hooks_of_write_events, HL, HH, !nat_list_eqb_refl.
-    rewrite sync_ok_write_events, hook_term_spec_term, sx_eqb_refl. cbn [andb].
-    rewrite spec_seen_model, andb_true_r.
+  - unfold sx_nth. cbn [sx_l nth]. rewrite dec_enc_evs. unfold must_reach.
+    rewrite P1, P2, P3, HL, HH, !nat_list_eqb_refl.
+    rewrite (okl_sync_ok _ _ _ Hok), hook_term_spec_term, sx_eqb_refl. cbn [andb].
+    rewrite reads_x_repeat, spec_seen_model, andb_true_r; [|rewrite P2, P3, HL; reflexivity].
     apply spec_pend_model.
-    + intros id. rewrite run_evs_nsinks. apply Hinv.
-    + intros Hhi id Hin. apply (run_write_events_settled _ _ Hhi). right. rewrite HL. exact Hin.
-  - intros id. rewrite run_evs_nsinks. apply Hinv.
+    + intros id. rewrite run_evs_x_nsinks. apply Hinv.
+    + intros Hhi id Hf Hin. rewrite Hhi in *. apply (okl_settled _ _ Hok); [exact Hf|]. right.
+      rewrite P1, HL. exact Hin.
+  - intros id. rewrite run_evs_x_nsinks. apply Hinv.
 Qed.
 
-Lemma spec_model_calls nz ps w lg ids stks cls : forall ctr st,
+Lemma spec_model_calls fx nz ps w lg ids stks cls : forall ctr st,
   forallb wf_call cls = true -> st_inv (sk_init ids stks) st ->
-  spec_calls (nz_name nz) w lg ids stks cls (model_calls nz ps ctr w lg ids st cls) = true.
+  spec_calls fx (nz_name nz) w lg ids stks cls (model_calls fx nz ps ctr w lg ids st cls) = true.
 Proof.
   induction cls as [|cl r IH]; intros ctr st Hwf Hinv; [reflexivity|]. cbn [forallb] in Hwf. apply andb_true_iff in Hwf.
   destruct Hwf as [H1 H2]. cbn [model_calls]. cbv zeta.
-  destruct (spec_model_call nz (ctr_dec ctr ps (c_level cl) (c_bucket cl)) w lg ids stks st cl H1 Hinv) as [Ha Hb].
+  destruct (spec_model_call fx nz (ctr_dec ctr ps (c_level cl) (c_bucket cl)) w lg ids stks st cl H1 Hinv) as [Ha Hb].
   cbn [spec_calls]. rewrite Ha. cbn [andb]. apply (IH _ _ H2 Hb).
 Qed.
 
-Lemma dec_logger_ext w i : dec_logger increase_ok w i = dec_logger spec_increase_ok w i.
-Proof. unfold dec_logger. rewrite (build_with_ext increase_ok spec_increase_ok w spec_increase_ok_eq). reflexivity. Qed.
+(* the tree as Core.Check sees it does not depend on whether the wrappers ask the code's Enabled or the
+   specification's accepts, nor on which validation NewIncreaseLevelCore runs *)
+Lemma outer_sx_ext p1 p2 ok1 ok2 w :
+  (forall w c l, p1 w c l = p2 w c l) -> (forall w c en, ok1 w c en = ok2 w c en) ->
+  forall s, outer_sx p1 ok1 w s = outer_sx p2 ok2 w s.
+Proof.
+  intros Hp Hok s. induction s as [z|b|l IH] using sx_ind'; [reflexivity|reflexivity|].
+  destruct l as [|t args]; [reflexivity|]. destruct t as [tag|?|?]; [|reflexivity|reflexivity].
+  apply Forall_inv_tail in IH.
+  assert (Hmap : map (outer_sx p1 ok1 w) args = map (outer_sx p2 ok2 w) args).
+  { induction IH as [|x r Hx _ IHr]; [reflexivity|]. cbn [map]. rewrite Hx, IHr. reflexivity. }
+  assert (H1 : forall c, args = [c] -> outer_sx p1 ok1 w c = outer_sx p2 ok2 w c).
+  { intros c ->. apply (Forall_inv IH). }
+  assert (H2 : forall c x, args = [c; x] -> outer_sx p1 ok1 w c = outer_sx p2 ok2 w c).
+  { intros c x ->. apply (Forall_inv IH). }
+  assert (H3 : forall c x y, args = [c; x; y] -> outer_sx p1 ok1 w c = outer_sx p2 ok2 w c).
+  { intros c x y ->. apply (Forall_inv IH). }
+  destruct tag as [|p|p]; [reflexivity| |reflexivity].
+  do 4 (try (destruct p as [p|p|])); cbn [outer_sx]; try reflexivity.
+  all: try (rewrite Hmap; reflexivity).
+  all: destruct args as [|c [|x [|y [|z zs]]]]; try reflexivity.
+  all: try (rewrite (H1 c eq_refl); reflexivity).
+  all: try (rewrite (H2 c x eq_refl); reflexivity).
+  all: try (rewrite (H3 c x y eq_refl); reflexivity).
+  (* 9: the wrapper *)
+  rewrite (build_with_ext ok1 ok2 w Hok). assert (Ht : forall k, tbl_of (p1 w k) = tbl_of (p2 w k)).
+  { intros k. unfold tbl_of. apply map_ext. intros n. rewrite Hp. reflexivity. }
+  rewrite Ht. reflexivity.
+Qed.
+Lemma dec_logger_ext w i : dec_logger enabled increase_ok w i = dec_logger accepts spec_increase_ok w i.
+Proof.
+  unfold dec_logger.
+  rewrite (outer_sx_ext enabled accepts increase_ok spec_increase_ok w (fun w c l => enabled_accepts w l c) spec_increase_ok_eq).
+  rewrite (build_with_ext increase_ok spec_increase_ok w spec_increase_ok_eq). reflexivity.
+Qed.
 
 Theorem spec_model i : wf i = true -> spec i (model i) = true.
 Proof.
   unfold wf, spec, model. destruct (is_table i); [intros _; apply sx_eqb_refl|]. cbn [orb]. intros Hwf.
   rewrite <- dec_logger_ext.
-  set (w := world_of (sx_nth i 1)). set (lg := dec_logger increase_ok w i). set (ps := sparams (sx_nth i 0)).
+  set (w := world_of (sx_nth i 1)). set (lg := dec_logger enabled increase_ok w i).
+  set (ps := sparams (outer_sx enabled increase_ok w (sx_nth i 0))). set (fx := dec_fenv i).
   set (calls := map dec_call (sx_l (sx_nth i 6))) in *.
-  set (stks := dec_stacks i). set (ids := sk_ids (lcore lg) stks).
+  set (stks := dec_stacks i). set (ids := sk_ids (all_leaves i) stks).
   change (sx_b (sx_nth (sx_nth i 8) 0)) with (nz_name (dec_noise i)).
   unfold sx_nth at 1. cbn [sx_l nth].
-  rewrite (spec_model_calls (dec_noise i) ps w lg ids stks calls [] (sk_init ids stks) Hwf (fun id => eq_refl)). cbn [andb].
+  rewrite (spec_model_calls fx (dec_noise i) ps w lg ids stks calls [] (sk_init ids stks) Hwf (fun id => eq_refl)). cbn [andb].
   destruct calls as [|cl [|cl' r]]; try reflexivity.
   destruct (sx_bool (sx_nth i 5)); [|reflexivity].
   cbn [model_calls]. cbv zeta. unfold model_call. cbv zeta. cbn [fst snd].
   unfold sx_nth. cbn [sx_l nth]. rewrite map_sx_n_of_nat.
   cbn [forallb] in Hwf. rewrite andb_true_r in Hwf.
   set (dec := ctr_dec [] ps (c_level cl) (c_bucket cl)).
-  rewrite (log_call_s_wf dec w lg cl Hwf). cbn [fst].
-  destruct (reported_front_ends dec w (lcore lg) (fam_of (c_method cl)) (c_level cl)) as [HL _]. cbv zeta in HL.
-  rewrite <- HL.
-  assert (Heq : forall ids', map (fun id => flushed_lines id (write_events all_io (c_level cl) (call_writers_s dec w (lcore lg) (fam_of (c_method cl)) (c_level cl))) 0 0) ids' =
-                            map (fun id => if ErrorL <? c_level cl then count_writes id (leaves_of (call_writers_s dec w (lcore lg) (fam_of (c_method cl)) (c_level cl))) else 0%nat) ids').
-  { intros ids'. apply map_ext. intros id. rewrite flushed_write_events. reflexivity. }
+  rewrite (log_call_x_wf fx dec w lg cl Hwf). cbn [fst].
+  set (ws := call_writers_s dec w (lcore lg) (fam_of (c_method cl)) (c_level cl)).
+  destruct (reported_front_ends dec w (lcore lg) (fam_of (c_method cl)) (c_level cl)) as [HL _]. cbv zeta in HL. fold ws in HL.
+  unfold must_reach. rewrite <- HL.
+  destruct (ce_write_proj fx (ErrorL <? c_level cl) ws) as [P1 _].
+  pose proof (ce_write_okl fx (ErrorL <? c_level cl) ws) as Hok.
+  assert (Heq : forall ids', map (fun id => flushed_lines_x (fe_fails fx) id (fst (ce_write fx (ErrorL <? c_level cl) ws)) 0 0) ids' =
+                            map (fun id => if (ErrorL <? c_level cl) && negb (fe_fails fx id)
+                                           then count_writes id (flat_map (reach_of fx) (leaves_of ws)) else 0%nat) ids').
+  { intros ids'. apply map_ext. intros id. rewrite <- P1. destruct (ErrorL <? c_level cl).
+    - rewrite (okl_flushed_hi _ _ Hok). cbn [andb]. destruct (fe_fails fx id); reflexivity.
+    - rewrite (okl_flushed_lo _ _ Hok). reflexivity. }
   rewrite Heq. apply nat_list_eqb_refl.
+Qed.
+
+(* ---------------- forwarding wrappers and failing cores: what has happened before the terminal action ---------------- *)
+(* a healthy IO core anywhere beneath a composite that is written through its Write method: written, and synced at
+   once - whichever cores before, between or after it in whichever tee fail *)
+Theorem healthy_core_synced fails hfails c id :
+  In id (x_reach c) -> fails id = false ->
+  exists a b, fst (x_write fails hfails true c) = a ++ EWrite id :: ESync id :: b.
+Proof.
+  intros Hin Hf. apply (okl_in_split fails _ id (x_write_okl fails hfails true c) Hf).
+  destruct (composite_write_thm fails hfails true c) as [-> _]. exact Hin.
+Qed.
+
+(* whatever the wrappers wrap, whichever cores fail, whatever the samplers decide: every front-end method at a
+   terminal level writes what is on the CheckedEntry - through the Write methods - and then runs the terminal action *)
+Theorem terminates_x_thm fx dec w lg m l :
+  In m methods -> can_log m l = true -> terminal lg l ->
+  log_call_x fx dec w lg (fam_of m) l =
+  (fst (ce_write fx true (cores_of (check_s dec w (lcore lg) 0 l None))), Some (expected_action lg l)).
+Proof.
+  intros Hm Hc Ht. unfold log_call_x. change (fun _ : nat => true) with all_io.
+  rewrite (terminates_s_thm dec w lg all_io m l Hm Hc Ht), (terminal_hi lg l Ht). cbn [snd].
+  unfold call_writers_s, logger_check_s. rewrite (reaches_terminal w (lcore lg) m l lg Hm Hc Ht).
+  assert ((l <? DPanicL) = false) as ->; [|reflexivity].
+  apply Z.ltb_ge. destruct (terminal_level lg l Ht) as [<-|[<-|[<-|[]]]]; unfold DPanicL, PanicL, FatalL; lia.
+Qed.
+
+Theorem written_first_x_thm fx dec w lg m l :
+  In m methods -> can_log m l = true -> terminal lg l ->
+  let evs := fst (log_call_x fx dec w lg (fam_of m) l) in
+  writes_of evs = must_reach fx dec w lg l /\
+  ev_hooks_of evs = hooks_due_s dec w (lcore lg) 0 l /\
+  ev_fhooks_of evs = flat_map (fhooks_of fx) (delivered_s dec w (lcore lg) 0 l) /\
+  sync_ok_x (fe_fails fx) true evs = true /\
+  (forall id, In id (must_reach fx dec w lg l) -> fe_fails fx id = false ->
+     (exists a b, evs = a ++ EWrite id :: ESync id :: b) /\
+     flushed_lines_x (fe_fails fx) id evs 0 0 = count_writes id (must_reach fx dec w lg l)).
+Proof.
+  intros Hm Hc Ht. unfold log_call_x. cbn [fst]. rewrite (terminal_hi lg l Ht).
+  set (ws := call_writers_s dec w (lcore lg) (fam_of m) l).
+  destruct (sampler_front_ends_thm dec w (lcore lg) (fam_of m) l) as [HL HH]. fold ws in HL, HH.
+  rewrite (delivered_s_ext _ dec w (lcore lg) 0%nat l (effective_valid dec l (terminal_valid lg l Ht))) in HL.
+  rewrite (hooks_due_s_ext _ dec w (lcore lg) 0%nat l (effective_valid dec l (terminal_valid lg l Ht))) in HH.
+  destruct (ce_write_proj fx true ws) as [P1 [P2 P3]]. pose proof (ce_write_okl fx true ws) as Hok.
+  unfold must_reach. rewrite <- HL, <- HH.
+  split; [exact P1|]. split; [exact P2|]. split; [exact P3|]. split; [apply okl_sync_ok; exact Hok|].
+  intros id Hin Hf. split.
+  - apply (okl_in_split _ _ id Hok Hf). rewrite P1. exact Hin.
+  - rewrite (okl_flushed_hi _ _ Hok), Hf, P1. reflexivity.
+Qed.
+
+(* ... and every sink below every healthy IO core the entry had to reach, whatever the stack of WriteSyncer
+   combinators, has committed everything ever written to it *)
+Theorem committed_first_x_thm fx dec w lg m l lens st :
+  In m methods -> can_log m l = true -> terminal lg l ->
+  let st' := run_evs_x (fe_fails fx) lens st (fst (log_call_x fx dec w lg (fam_of m) l)) in
+  forall id, In id (must_reach fx dec w lg l) -> fe_fails fx id = false ->
+    Forall (eq 0) (sk_pending 0 (st' id)) /\ map (Z.add 0) (sk_committed (st' id)) = sk_held 0 (st' id).
+Proof.
+  intros Hm Hc Ht st' id Hin Hf. subst st'.
+  destruct (written_first_x_thm fx dec w lg m l Hm Hc Ht) as [Hw _]. revert Hw.
+  unfold log_call_x. cbn [fst]. rewrite (terminal_hi lg l Ht). intros Hw.
+  assert (settled (run_evs_x (fe_fails fx) lens st (fst (ce_write fx true (call_writers_s dec w (lcore lg) (fam_of m) l))) id)) as Hs.
+  { apply (okl_settled _ _ (ce_write_okl fx true _)); [exact Hf|]. right. rewrite Hw. exact Hin. }
+  split; [exact Hs|]. symmetry. apply nothing_pending_all_committed. exact Hs.
+Qed.
+
+(* no wrapper, nothing fails: the call of the theorems above *)
+Lemma ce_write_plain l ws : fst (ce_write fx_plain (ErrorL <? l) ws) = write_events all_io l ws.
+Proof.
+  induction ws as [|[i|h] r IH]; [reflexivity| |]; cbn [ce_write fst core_write fx_plain fe_fw fe_fails]; rewrite IH.
+  - change (write_events all_io l (WLeaf i :: r)) with ((EWrite i :: (if all_io i && (ErrorL <? l) then [ESync i] else [])) ++ write_events all_io l r).
+    reflexivity.
+  - reflexivity.
+Qed.
+Theorem forwarding_conservative dec w lg f l : log_call_x fx_plain dec w lg f l = log_call_s dec w lg all_io f l.
+Proof.
+  unfold log_call_x. change (fun _ : nat => true) with all_io. rewrite ce_write_plain, log_call_s_eq. reflexivity.
+Qed.
+
+(* multiCore.Write that returns on the first error loses the healthy core behind the failing one *)
+Definition tee_first_error_full : Prop :=
+  forall fails hfails hi c, writes_of (fst (x_write_ff fails hfails hi c)) = x_reach c.
+Theorem tee_first_error_refuted : ~ tee_first_error_full.
+Proof.
+  intros H. specialize (H (fun i => Nat.eqb i 0) (fun _ => false) true (XFwd (XTee [XLeaf 0; XLeaf 1]))).
+  vm_compute in H. discriminate H.
+Qed.
+
+(* the wrapper as Core.Check sees it: it adds itself exactly when the core it wraps is enabled *)
+Theorem fwd_enabler_spec (f : level -> bool) w l :
+  -128 <= l <= 127 -> on w (dec_en (SL [SZ 2; SB (tbl_of f)])) l = f l.
+Proof.
+  intros Hl. unfold dec_en, sx_nth. cbn [sx_l nth sx_z sx_b on]. unfold tbl_fn, tbl_of. rewrite map_map.
+  set (g := fun n : nat => negb (Byte.eqb (if f (Z.of_nat n - 128) then x01 else x00) x00)).
+  assert (Hn : (Z.to_nat (l + 128) < 256)%nat) by lia.
+  rewrite (nth_indep _ false (g 0%nat)) by (rewrite map_length, seq_length; exact Hn).
+  rewrite map_nth, seq_nth by exact Hn. unfold g. cbn [Nat.add].
+  replace (Z.of_nat (Z.to_nat (l + 128)) - 128) with l by lia. destruct (f l); reflexivity.
 Qed.
 
 (* ---------------- the terminal action and the CheckedEntry pool ---------------- *)
